@@ -16,6 +16,7 @@ tree and leaves are compared with the mirror; independently (Python) the tree's
 leaves must spell the repaired input and (extracted LR interpreter) plain
 parsing of the repaired token string must give the same tree shape.
 """
+import re
 from vlib import core, cfg, repair
 from gen import repairgen
 
@@ -32,8 +33,47 @@ def seq_str(r, seq):
     return out
 
 
-def check_input(ctx, r, inp):
+KNOWN_NONCONFLUENT = ("reported repair sequence does not repair on a conflict-resolved table: the search continues from a stack "
+                      "reduced under the real lookahead, the replay starts from the unreduced stack")
+
+
+class _Collect:
+    """collects the problems of one input; decides known finding vs alarm at the end"""
+
+    def __init__(self):
+        self.items = []
+
+    def violation(self, d, no_input=False, tag="mirror"):
+        self.items.append((d, no_input, tag))
+
+
+def check_input(ctx0, r, inp):
     """returns True when everything demanded of this input holds"""
+    ctx = _Collect()
+    ok = _check_input(ctx, ctx0, r, inp)
+    if ok is None:
+        return None
+    m = inp.model or {}
+    bad = [b for b in m.get("bad", "").split(",") if b]
+    resolved = r.conflicts is not None or not r.verdict.get("single", False)
+    # On a table with resolved conflicts the reductions made under the erroneous lookahead (before the error is
+    # detected, or by a shift neighbour that made no progress) need not be the ones made under the repaired
+    # lookahead (DESIGN 5B, reduce-confluence).  Known class there: a reported sequence that fails when replayed,
+    # leaves that miss an Insert which shifted nothing, and a plain parse of the repaired token string that
+    # differs.  The comparison with the mirror driver and tree validity are demanded on every table.
+    seq_bad = any(re.match(r"\d+\.\d+\.(step\d+|ahead-err\d+)$", b) for b in bad)
+    applied_bad = any(re.match(r"\d+\.0\.(step\d+|ahead-err\d+)$", b) for b in bad)
+    all_known = bool(ctx.items)
+    for d, no_input, tag in ctx.items:
+        known = resolved and ((tag == "seq" and seq_bad) or (tag == "leaves" and applied_bad) or tag == "rep")
+        all_known = all_known and known
+        d["table_has_resolved_conflicts"] = resolved
+        ctx0.count("failing_known_class" if known else "failing_ALARM")
+        ctx0.violation(d, known_key=KNOWN_NONCONFLUENT if known else None, no_input=no_input)
+    return True if all_known else ok
+
+
+def _check_input(ctx, ctx0, r, inp):
     base = {"grammar": r.src, "costs": r.costs, "input": r.names(inp.toks), "input_tidxs": inp.toks,
             "impl_errors": [{"lexeme": e[0], "state": e[1], "repairs": [" ".join(s) for s in e[3][:6]]} for e in inp.errors],
             "impl_value": inp.value, "conflicts": r.conflicts}
@@ -41,12 +81,12 @@ def check_input(ctx, r, inp):
     ok = True
     n = len(inp.toks)
     nrep = sum(len(e[3]) for e in inp.errors)
-    ctx.count("errors_per_input_%s" % (len(inp.errors) if len(inp.errors) < 4 else "4+"))
+    ctx0.count("errors_per_input_%s" % (len(inp.errors) if len(inp.errors) < 4 else "4+"))
     if inp.ms >= 0.8 * r.budget:
-        ctx.count("budget_possibly_exhausted")
+        ctx0.count("budget_possibly_exhausted")
     if not m or m.get("mirror") in ("ifuel", "ofuel"):
         # the mirror ran out of fuel (reduce loop in a conflict-resolved table): nothing to compare
-        ctx.count("skipped_model_fuel")
+        ctx0.count("skipped_model_fuel")
         return None
     # ---- (1) every reported sequence is a repair -------------------------------------
     bad = [b for b in m.get("bad", "").split(",") if b]
@@ -68,9 +108,9 @@ def check_input(ctx, r, inp):
         d = dict(base)
         d.update({"what": "reported repair sequence does not repair: " + what, "error_index": ei, "sequence_index": sj,
                   "sequence": seq_str(r, seq), "failing": why})
-        ctx.violation(d)
+        ctx.violation(d, tag="seq")
         ok = False
-    ctx.count("sequences_checked", int(m.get("nseq", "0")))
+    ctx0.count("sequences_checked", int(m.get("nseq", "0")))
     # ---- (2) continuation: later errors and value = replay of the first sequences --------
     impl_errs = ["%d:%d:%d" % (e[0], e[1], 1 if e[3] else 0) for e in inp.errors]
     merrs = [x for x in m.get("merrs", "").split(",") if x]
@@ -101,23 +141,23 @@ def check_input(ctx, r, inp):
         if leaves != exp:
             d = dict(base)
             d.update({"what": "the returned tree's leaves do not spell the repaired input", "leaves": leaves, "expected": exp})
-            ctx.violation(d)
+            ctx.violation(d, tag="leaves")
             ok = False
         if not cfg.tree_valid(r.dgram, t):
             d = dict(base)
             d.update({"what": "the returned tree is not built from productions of the grammar"})
-            ctx.violation(d)
+            ctx.violation(d, tag="treevalid")
             ok = False
         # plain LR parse (extracted interpreter) of the repaired token string: same tree shape
         if m.get("rep") != "acc" or m.get("rshape") != "same":
             if m.get("rep") == "fuel":
-                ctx.count("skipped_model_fuel")
+                ctx0.count("skipped_model_fuel")
             else:
                 d = dict(base)
                 d.update({"what": "plain LR parsing of the repaired token string does not give the returned tree",
                           "plain_parse_of_repaired_input": m.get("rep"), "shape": m.get("rshape"),
                           "repaired_input": [r.tname(x[0]) for x in exp]})
-                ctx.violation(d)
+                ctx.violation(d, tag="rep")
                 ok = False
     elif inp.value == "none" and inp.errors and not inp.errors[-1][3] and merrs == impl_errs:
         # unrepaired last error: plain parsing of the input repaired so far stops there
@@ -129,7 +169,7 @@ def check_input(ctx, r, inp):
             d = dict(base)
             d.update({"what": "plain LR parsing of the input with the earlier repairs applied does not stop at the last reported error",
                       "plain_parse_of_repaired_input": m.get("rep"), "expected": want})
-            ctx.violation(d)
+            ctx.violation(d, tag="rep")
             ok = False
     return ok
 
